@@ -172,8 +172,10 @@ func cmdRun(args []string) int {
 	sum.Rule = p.Rule()
 	knownList := loadKnown(*known, *propID)
 
-	// the cases
-	var cases []map[string]any
+	// the cases: hand-written and systematic ones are held, generated ones are rebuilt on demand from
+	// (seed, index) so that a thorough run does not keep hundreds of thousands of inputs in memory
+	var pre []map[string]any
+	nGen := 0
 	if *replay != "" {
 		b, err := os.ReadFile(*replay)
 		if err != nil {
@@ -189,26 +191,30 @@ func cmdRun(args []string) int {
 			fmt.Fprintln(os.Stderr, "bad replay file", err)
 			return 2
 		}
-		cases = append(cases, rf.Input)
+		pre = append(pre, rf.Input)
 	} else {
 		for _, c := range p.Fixed() {
-			cases = append(cases, c)
+			pre = append(pre, c)
 		}
 		if sw, ok := p.(Sweeper); ok {
-			cases = append(cases, sw.Sweep(*tier, *seed)...)
+			pre = append(pre, sw.Sweep(*tier, *seed)...)
 		}
-		n := p.N(*tier)
+		nGen = p.N(*tier)
 		if *nOverride > 0 {
-			n = *nOverride
-		}
-		for i := 0; i < n; i++ {
-			r := NewRng(subSeed(*seed, i))
-			cases = append(cases, p.Gen(r, *tier, i))
+			nGen = *nOverride
 		}
 	}
-	for i := range cases {
-		cases[i]["case"] = i
-		cases[i] = deepCopyJSON(cases[i]).(map[string]any)
+	nCases := len(pre) + nGen
+	caseAt := func(i int) map[string]any {
+		var c map[string]any
+		if i < len(pre) {
+			c = pre[i]
+		} else {
+			j := i - len(pre)
+			c = p.Gen(NewRng(subSeed(*seed, j)), *tier, j)
+		}
+		c["case"] = i
+		return deepCopyJSON(c).(map[string]any)
 	}
 
 	// workers, each with its own model process
@@ -216,12 +222,13 @@ func cmdRun(args []string) int {
 		i int
 		v Verdict
 		e string
+		h string
 	}
-	results := make([]res, len(cases))
+	results := make([]res, nCases)
 	var wg sync.WaitGroup
 	nw := *workers
-	if nw > len(cases) {
-		nw = len(cases)
+	if nw > nCases {
+		nw = nCases
 	}
 	if nw < 1 {
 		nw = 1
@@ -235,8 +242,8 @@ func cmdRun(args []string) int {
 		}
 		drivers[w] = d
 	}
-	next := make(chan int, len(cases))
-	for i := range cases {
+	next := make(chan int, nCases)
+	for i := 0; i < nCases; i++ {
 		next <- i
 	}
 	close(next)
@@ -246,8 +253,12 @@ func cmdRun(args []string) int {
 			defer wg.Done()
 			for i := range next {
 				results[i] = res{i: i}
-				v, e := runCase(p, d, cases[i])
-				results[i].v, results[i].e = v, e
+				c := caseAt(i)
+				v, e := runCase(p, d, c)
+				if v.Disagree == "" && len(v.Violations) == 0 {
+					v = Verdict{Trivial: v.Trivial, Tags: v.Tags} // nothing else is needed of a passing case
+				}
+				results[i].v, results[i].e, results[i].h = v, e, digest(c)
 			}
 		}(drivers[w])
 	}
@@ -265,12 +276,12 @@ func cmdRun(args []string) int {
 		for _, t := range r.v.Tags {
 			sum.Tags[t]++
 		}
-		h := digest(cases[i])
+		h := r.h
 		if !r.v.Trivial && !seen[h] {
 			seen[h] = true
 			sum.DistinctNontrivial++
 			if len(sum.Samples) < 3 {
-				sum.Samples = append(sum.Samples, cases[i])
+				sum.Samples = append(sum.Samples, caseAt(i))
 			}
 		}
 		if r.v.Disagree == "" {
@@ -309,7 +320,7 @@ func cmdRun(args []string) int {
 			}
 		}
 		// shrink on the first unknown violation's signature, else on "still disagrees"
-		in := cases[i]
+		in := caseAt(i)
 		var f Finding
 		if len(unknown) > 0 {
 			sig := unknown[0].Sig
@@ -351,8 +362,8 @@ func cmdRun(args []string) int {
 	}
 	sum.ViolatingCases, sum.DisagreeingCases = nViol, nDis
 	sum.WallS = time.Since(start).Seconds()
-	if len(sum.Samples) == 0 && len(cases) > 0 {
-		sum.Samples = append(sum.Samples, cases[0])
+	if len(sum.Samples) == 0 && nCases > 0 {
+		sum.Samples = append(sum.Samples, caseAt(0))
 	}
 	b, _ := json.MarshalIndent(sum, "", " ")
 	if *out != "" {
